@@ -32,10 +32,8 @@ STR_OF_INT = z3.IntToStr
 
 
 def init(it):
-    it.fs_bin = z3.Array("FS_bin", S, BSort)
-    it.fs_txt = z3.Array("FS_txt", S, S)
-    it.fs_exists = z3.Array("FS_exists", S, B_)
-    it.fs0 = (it.fs_bin, it.fs_txt, it.fs_exists)
+    from .ghostfs import GhostFS
+    it.fs = GhostFS(it)
     it.hex_files = {}  # path sexpr -> (path term, VLib IntelHex snapshot)
     it.urandom_draws = []
     it.frame_violations = []
@@ -60,7 +58,7 @@ _PLAIN_BUILTINS = {"len", "bytes", "int", "str", "bool", "list", "tuple", "dict"
                    "bytearray", "abs", "iter", "next", "callable", "id", "hash", "vars", "dir", "map", "filter", "ord", "chr"}
 
 
-_SPEC_BUILTINS = {"HASH", "UUID5", "HEX", "ENC", "utf8", "TAG", "NAMESPACE_DNS", "UNHEX", "FILE", "TEXTFILE", "EXISTS"}
+_SPEC_BUILTINS = {"HASH", "UUID5", "HEX", "ENC", "utf8", "TAG", "NAMESPACE_DNS", "UNHEX", "FILE", "TEXTFILE", "EXISTS", "HEXMAP", "HEX_PUT", "HEX_EMPTY", "HEX_MERGE", "HEX_TOBIN", "HEX_MIN", "HEX_MAX", "HEX_OVERLAP", "HEX_ISEMPTY", "HEX_FILE_OK"}
 
 
 def builtin_name(it, name):
@@ -499,6 +497,8 @@ def _same_kind_eq(it, a: V, b: V):
         if a.kind == b.kind == "Path":
             return _same_kind_eq(it, a.f["s"], b.f["s"])
         return a is b
+    if isinstance(a, VOpaque) and isinstance(b, VOpaque) and a.kind == b.kind == "hexmap":
+        return a.e == b.e
     if isinstance(a, VOpaque) or isinstance(b, VOpaque):
         from . import plain
         return plain.eq(it, a, b)
@@ -1023,18 +1023,18 @@ def path_join(it, a, b):
 
 
 def fs_exists(it, p):
-    return z3.Select(it.fs_exists, path_term(it, p))
+    return it.fs.exists(path_term(it, p))
 
 
 def fs_read(it, p, binary=True):
     note(it, "open/read (ghost file system)")
     pt = path_term(it, p)
-    if not it.branch(z3.Select(it.fs_exists, pt)):
+    if not it.branch(it.fs.exists(pt)):
         it.raise_(FileNotFoundError, "No such file or directory")
     it.trace.append(("read", pt))
     if binary:
-        return VBytes(z3.Select(it.fs_bin, pt))
-    return VStr(z3.Select(it.fs_txt, pt))
+        return VBytes(it.fs.read_bin(pt))
+    return VStr(it.fs.read_txt(pt))
 
 
 def fs_write(it, p, content: V, binary=True):
@@ -1043,14 +1043,13 @@ def fs_write(it, p, content: V, binary=True):
     if binary:
         if not isinstance(content, VBytes):
             it.raise_(TypeError, "a bytes-like object is required")
-        it.fs_bin = z3.Store(it.fs_bin, pt, content.e)
+        it.fs.write(pt, "b", content.e)
         it.trace.append(("write", pt, content, "b"))
     else:
         if not isinstance(content, VStr):
             it.raise_(TypeError, "write() argument must be str")
-        it.fs_txt = z3.Store(it.fs_txt, pt, content.e)
+        it.fs.write(pt, "t", content.e)
         it.trace.append(("write", pt, content, "t"))
-    it.fs_exists = z3.Store(it.fs_exists, pt, True)
 
 
 def open_file(it, args, kwargs):
@@ -1062,7 +1061,7 @@ def open_file(it, args, kwargs):
     pt = path_term(it, p)
     fh = VLib("File", path=p, mode=m, closed=False)
     if "r" in m:
-        if not it.branch(z3.Select(it.fs_exists, pt)):
+        if not it.branch(it.fs.exists(pt)):
             it.raise_(FileNotFoundError, "No such file or directory")
     elif "w" in m:
         # opening for writing creates/truncates the file immediately; the directory may not exist
@@ -1071,10 +1070,9 @@ def open_file(it, args, kwargs):
             it.raise_(FileNotFoundError, "No such file or directory (parent)")
         it.trace.append(("open-w", pt))
         if "b" in m:
-            it.fs_bin = z3.Store(it.fs_bin, pt, z3.Empty(BSort))
+            it.fs.write(pt, "b", z3.Empty(BSort))
         else:
-            it.fs_txt = z3.Store(it.fs_txt, pt, z3.StringVal(""))
-        it.fs_exists = z3.Store(it.fs_exists, pt, True)
+            it.fs.write(pt, "t", z3.StringVal(""))
         fh.f["written"] = VBytes(b"") if "b" in m else VStr("")
     else:
         raise OutOfSubset(f"open mode {m}")
